@@ -115,14 +115,33 @@ Qed.
 Lemma escaped_not_keyword : forallb (fun k => negb (is_keyword (k ++ [USCORE]))) KEYWORDS = true.
 Proof. vm_compute. reflexivity. Qed.
 
-Definition Known_C09_keyword (s : list N) : Prop :=
-  is_keyword (rust_field_name s) = true /\ mem_str (rust_field_name s) KEYWORDS = false.
+(* KEYWORDS (Gen/Keywords.v, generated from generate/rust.rs) contains every keyword of the transcribed Rust-reference
+   table that starts with a lower-case letter -- the only ones a mangled component name can be.  Finite check against the
+   generated list: removing an entry from the crate's array breaks this proof. *)
+Lemma keywords_complete_b :
+  forallb (fun k => match k with c :: _ => implb (is_lower c) (mem_str k KEYWORDS) | [] => true end) RUST_KEYWORDS = true.
+Proof. vm_compute. reflexivity. Qed.
+
+Lemma keywords_complete k :
+  In k RUST_KEYWORDS -> (exists c t, k = c :: t /\ is_lower c = true) -> mem_str k KEYWORDS = true.
+Proof.
+  intros Hin [c [t [E Hc]]]. pose proof keywords_complete_b as Hf. rewrite forallb_forall in Hf.
+  specialize (Hf _ Hin). subst k. cbn beta iota in Hf. rewrite Hc in Hf. exact Hf.
+Qed.
+
+Lemma keywords_complete_identifier k :
+  In k RUST_KEYWORDS -> asn_identifier k = true -> mem_str k KEYWORDS = true.
+Proof.
+  intros Hin Ha. apply keywords_complete; [exact Hin|]. destruct k as [|c t]; [discriminate|].
+  exists c, t. split; [reflexivity|]. unfold asn_identifier in Ha.
+  apply andb_true_iff in Ha. destruct Ha as [Ha _]. apply andb_true_iff in Ha. destruct Ha as [Ha _]. exact Ha.
+Qed.
 
 Lemma field_idents_legal s :
-  asn_identifier s = true -> ~ Known_C09_keyword s ->
+  asn_identifier s = true ->
   is_rust_ident (emit_field s) = true /\ is_keyword (emit_field s) = false.
 Proof.
-  intros Hs Hk. destruct (field_name_shape s Hs) as [c [t [E [Hc Ht]]]].
+  intros Hs. destruct (field_name_shape s Hs) as [c [t [E [Hc Ht]]]].
   unfold emit_field, gen_field_name. rewrite E.
   assert (Hall : Forall (fun x => okc x = true) (c :: t)). { constructor; [unf; lia | exact Ht]. }
   rewrite (replace_hyphen_id (c :: t) Hall). cbn [andb].
@@ -135,7 +154,9 @@ Proof.
       apply Hf in Em. apply negb_true_iff in Em. exact Em.
   - split.
     + cbn [is_rust_ident]. rewrite (lower_alpha c Hc). exact Hcont.
-    + destruct (is_keyword (c :: t)) eqn:Ek; [|reflexivity]. exfalso. apply Hk. unfold Known_C09_keyword. rewrite E. auto.
+    + destruct (is_keyword (c :: t)) eqn:Ek; [|reflexivity]. exfalso.
+      apply mem_str_In in Ek. rewrite (keywords_complete (c :: t) Ek) in Em; [discriminate|].
+      exists c, t. split; [reflexivity | exact Hc].
 Qed.
 
 (* ------------------------------------------------------------------ rust_variant_name *)
